@@ -8,7 +8,8 @@
      of the implementation), never a default value;
    - non-structural recursion takes explicit fuel and returns the distinct `OutOfFuel`;
    - `fixed : bool` selects the behaviour of single-stepping at the end of a segment:
-       false = the code as it is in the pinned tree, true = the two-line patch proposed to the lead. *)
+       true = the current code (since /repo commit a6624ec), false = the pinned tree before that fix (kept as history
+       for the `_refuted` theorems). *)
 From Coq Require Import ZArith Bool String Ascii List.
 Import ListNotations.
 Open Scope Z_scope.
@@ -23,9 +24,9 @@ Arguments OutOfFuel {A}.
 
 (* kinds of undefined behaviour *)
 Definition F_internal := 1.    (* malformed bytecode / state: cannot arise from compiled programs run through the API *)
-Definition F_count := 2.       (* negative or overflowing byte count handed to ForthInputBuffer::read *)
-Definition F_rewind := 3.      (* negative argument of `rewind`: the output grows over memory never written *)
-Definition F_divtrap := 4.     (* INT_MIN / -1, INT_MIN mod -1: the division instruction traps *)
+Definition F_count := 2.       (* repetition count * item size overflows int64 (negative counts are refused since the fix) *)
+Definition F_rewind := 3.      (* (pinned tree only, fixed since) negative argument of `rewind` *)
+Definition F_divtrap := 4.     (* (pinned tree only, fixed since) INT_MIN / -1 trapped *)
 Definition F_loopindex := 5.   (* i / j / k read below the bottom of the do-stack *)
 Definition F_exitdepth := 6.   (* exit unwinds more frames than exist *)
 Definition F_calldepth := 7.   (* call() at the maximum recursion depth writes beyond current_which_ *)
@@ -74,14 +75,18 @@ Definition E_overflow := 6.        Definition E_read_beyond := 7.     Definition
 Definition E_skip_beyond := 9.     Definition E_rewind_beyond := 10.  Definition E_div_zero := 11.
 Definition E_varint := 12.
 
-(* floor division as coded:  tmp = a / b;  tmp*b == a ? tmp : tmp - ((a<0)^(b<0))   (C++ '/' truncates) *)
+(* forth_floor_div / forth_floor_mod of ForthMachine.cpp (C++ '/' and '%' truncate):
+     d == -1 : quotient = wrapping negation of n, modulo = 0  (avoids the INT_MIN / -1 trap)
+     else    : q = n / d, decremented when n % d != 0 and the signs of n and d differ;
+               r = n % d, plus d when r != 0 and the signs of r and d differ *)
 Definition forth_div (w a b : Z) : Z :=
-  let tmp := Z.quot a b in
-  wrap w (if tmp * b =? a then tmp else tmp - (if xorb (a <? 0) (b <? 0) then 1 else 0)).
-(* modulo as coded:  (b + (a % b)) % b   with the intermediate sum wrapping at the cell width *)
-Definition forth_mod (w a b : Z) : Z := Z.rem (wrap w (b + Z.rem a b)) b.
-(* INT_MIN / -1 and INT_MIN % -1 trap (SIGFPE) on the target *)
-Definition div_traps (w a b : Z) : bool := (a =? min_int w) && (b =? -1).
+  if b =? -1 then wrap w (- a)
+  else let q := Z.quot a b in
+       if negb (Z.rem a b =? 0) && negb (Bool.eqb (a <? 0) (b <? 0)) then q - 1 else q.
+Definition forth_mod (w a b : Z) : Z :=
+  if b =? -1 then 0
+  else let r := Z.rem a b in
+       if negb (r =? 0) && negb (Bool.eqb (r <? 0) (b <? 0)) then r + b else r.
 
 (* shifts: the shift count is reduced modulo the width by the hardware *)
 Definition forth_lshift (w a c : Z) : Z := wrap w (Z.shiftl a (c mod w)).
@@ -319,8 +324,7 @@ Definition buf_apply (b : outbuf) (op : bop) : bres :=
               | [] => BErr E_rewind_beyond
               | x :: _ => if 0 <? n then BOk (replicate (Z.to_nat n) x ++ b) else BOk b
               end
-  | BRewind n => if zlen b - n <? 0 then BErr E_rewind_beyond
-                 else if n <? 0 then BFault F_rewind          (* length_ grows over memory never written *)
+  | BRewind n => if (n <? 0) || (zlen b - n <? 0) then BErr E_rewind_beyond
                  else BOk (skipn (Z.to_nat n) b)
   end.
 
@@ -454,6 +458,7 @@ Definition exec_read (p : prog) (e : env) (m0 : machine) (bytecode : Z) : step_r
     match items with
     | Ok (None, m2) => stop m2 E_underflow
     | Ok (Some n, m2) =>
+      if n <? 0 then stop m2 E_read_beyond else        (* a negative repetition count is refused *)
       (* for NBIT the bit width comes before the output number *)
       let with_bw : result (Z * machine) :=
         if fmt =? READ_NBIT then fetch p m2 else Ok (0, m2) in
@@ -505,10 +510,8 @@ Definition exec_read (p : prog) (e : env) (m0 : machine) (bytecode : Z) : step_r
                     match out_write m5 o (rev (map conv items)) with Ok m6 => continue m6 | _ => Fault F_internal end
                   end
                 | None =>
-                  (* bool, int8, uint8: stack_push(value); the others: stack_push((I)value) with I = int32_t *)
-                  let conv (it : list Z) :=
-                    let v := decode size signed bigendian it in
-                    if size =? 1 then v else wrap 32 v in
+                  (* stack_push((T)value) *)
+                  let conv (it : list Z) := wrap (p_w p) (decode size signed bigendian it) in
                   push_items p m5 (map conv items)
                 end
               | Fault k => Fault k
@@ -653,13 +656,13 @@ Definition exec_builtin (p : prog) (e : env) (m : machine) (bytecode : Z) : step
   else if bytecode =? CODE_LEN_INPUT then
     with_arg p m (fun inp m1 =>
       if can_push p m1 then match znth (e_inputs e) inp, znth (m_inpos m1) inp with
-                            | Some data, Some _ => push p m1 (wrap 32 (zlen data))
+                            | Some data, Some _ => push p m1 (wrap w (zlen data))
                             | _, _ => Fault F_internal
                             end
       else stop m1 E_overflow)
   else if bytecode =? CODE_POS then
     with_arg p m (fun inp m1 =>
-      if can_push p m1 then match znth (m_inpos m1) inp with Some pos => push p m1 (wrap 32 pos) | None => Fault F_internal end
+      if can_push p m1 then match znth (m_inpos m1) inp with Some pos => push p m1 (wrap w pos) | None => Fault F_internal end
       else stop m1 E_overflow)
   else if bytecode =? CODE_END then
     with_arg p m (fun inp m1 =>
@@ -719,7 +722,7 @@ Definition exec_builtin (p : prog) (e : env) (m : machine) (bytecode : Z) : step
       end)
   else if bytecode =? CODE_LEN_OUTPUT then
     with_arg p m (fun o m1 =>
-      if can_push p m1 then match znth (m_outs m1) o with Some b => push p m1 (wrap 32 (zlen b)) | None => Fault F_internal end
+      if can_push p m1 then match znth (m_outs m1) o with Some b => push p m1 (wrap w (zlen b)) | None => Fault F_internal end
       else stop m1 E_overflow)
   else if bytecode =? CODE_REWIND then
     with_arg p m (fun o m1 =>
@@ -728,11 +731,11 @@ Definition exec_builtin (p : prog) (e : env) (m : machine) (bytecode : Z) : step
       | v :: s => out_apply (set_stack m1 s) o (BRewind v)
       end)
   else if bytecode =? CODE_I then
-    if can_push p m then match do_index m 0 with Some i => push p m (wrap 32 i) | None => Fault F_loopindex end else stop m E_overflow
+    if can_push p m then match do_index m 0 with Some i => push p m (wrap w i) | None => Fault F_loopindex end else stop m E_overflow
   else if bytecode =? CODE_J then
-    if can_push p m then match do_index m 1 with Some i => push p m (wrap 32 i) | None => Fault F_loopindex end else stop m E_overflow
+    if can_push p m then match do_index m 1 with Some i => push p m (wrap w i) | None => Fault F_loopindex end else stop m E_overflow
   else if bytecode =? CODE_K then
-    if can_push p m then match do_index m 2 with Some i => push p m (wrap 32 i) | None => Fault F_loopindex end else stop m E_overflow
+    if can_push p m then match do_index m 2 with Some i => push p m (wrap w i) | None => Fault F_loopindex end else stop m E_overflow
   else if bytecode =? CODE_DUP then
     match m_stack m with
     | [] => stop m E_underflow
@@ -761,7 +764,6 @@ Definition exec_builtin (p : prog) (e : env) (m : machine) (bytecode : Z) : step
     | b :: a :: s =>
       (* stack_pop2_before_pushing1 has already dropped one cell when the divisor is tested *)
       if b =? 0 then stop (set_stack m (a :: s)) E_div_zero
-      else if div_traps w a b then Fault F_divtrap
       else continue (set_stack m ((if bytecode =? CODE_DIV then forth_div w a b else forth_mod w a b) :: s))
     | _ => stop m E_underflow
     end
@@ -769,14 +771,13 @@ Definition exec_builtin (p : prog) (e : env) (m : machine) (bytecode : Z) : step
     match m_stack m with
     | two :: one :: s =>
       if two =? 0 then stop m E_div_zero
-      else if div_traps w one two then Fault F_divtrap
       else continue (set_stack m (forth_div w one two :: forth_mod w one two :: s))
     | _ => stop m E_underflow
     end
   else if bytecode =? CODE_NEGATE then un_op m (fun a => wrap w (- a))
   else if bytecode =? CODE_ADD1 then un_op m (fun a => wrap w (a + 1))
   else if bytecode =? CODE_SUB1 then un_op m (fun a => wrap w (a - 1))
-  else if bytecode =? CODE_ABS then un_op m (fun a => wrap 32 (Z.abs (wrap 32 a)))   (* `abs` resolves to int abs(int) *)
+  else if bytecode =? CODE_ABS then un_op m (fun a => wrap w (Z.abs a))
   else if bytecode =? CODE_MIN then bin_op m Z.min
   else if bytecode =? CODE_MAX then bin_op m Z.max
   else if bytecode =? CODE_EQ then bin_op m (fun a b => bool_cell (a =? b))
@@ -1664,8 +1665,7 @@ Definition g_apply (grow : Z -> Z) (junk : Z) (g : gbuf) (op : bop) : gres :=
     else GOk g
   | BRewind n =>
     let next := g_len g - n in
-    if next <? 0 then GErr E_rewind_beyond
-    else if n <? 0 then GFault F_rewind
+    if (n <? 0) || (next <? 0) then GErr E_rewind_beyond
     else GOk (mkG (g_data g) next (g_res g))
   end.
 
